@@ -77,6 +77,10 @@ class SessionRules(Harness):
         out.append({"fam": "halt-then-noexec", "L": 1})
         # two markets: a normal agent and a high-frequency agent, each free to pick the market of its order
         out.append({"fam": "two-markets-hft"})
+        # one agent hands in two items for one market in one consultation (the first executable on arrival): a round
+        # follows each of them, not the batch
+        out.append({"fam": "batch-rounds", "hft": False})
+        out.append({"fam": "batch-rounds", "hft": True})
         # one halt rule over two target markets: after the halt both markets match again
         out.append({"fam": "halt-two-targets", "L": 1})
         if tier == "thorough":
@@ -118,6 +122,16 @@ class SessionRules(Harness):
             # buys one unit at 300 on a market of its choice after each normal batch
             menu = {"acts": ["limit"], "per_agent": {"0": {"side": "S"}, "1": {"side": "B", "acts": ["none", "limit"]}},
                     "price_fixed": 300, "vol_fixed": 1}
+        elif fam == "batch-rounds":
+            sessions = [rn.session(0, 2, True, True, maxNormalOrders=2, maxHighFrequencyOrders=1, highFrequencySubmitRate=1.0)]
+            st = rn.base_settings(n_agents=1 if case["hft"] else 2, n_hft=1 if case["hft"] else 0, sessions=sessions)
+            # t=0: agent 0 bids one unit at 300; t=1: the other agent (normal or high-frequency) sends two items: a sell
+            # at 300 (executable on arrival) and then another sell / a cancel of that sell
+            menu = {"vol_fixed": 1, "price_fixed": 300,
+                    "per_agent": {"0": {"side": "B", "acts_by_time": {"0": ["limit"], "1": ["none", "limit"]}},
+                                  "1": {"side": "S", "max_orders": 2, "acts_by_time": {"0": ["none"], "1": ["limit", "cancel"]}}}}
+            if case["hft"]:
+                menu["per_agent"]["0"]["acts_by_time"] = {"0": ["limit"], "1": ["limit"]}
         elif fam == "halt-two-targets":
             markets = {f"M{i}": {"class": "Market", "tickSize": 1, "marketPrice": 300} for i in range(2)}
             ev = dict(EVENTS["halt"])
